@@ -113,3 +113,63 @@ func VerifC10_ReturnRevert() {
 	}
 	symx.Reach("end")
 }
+
+// CALLDATALOAD / CALLDATACOPY / CODECOPY with a full 256-bit symbolic source offset: the bytes
+// delivered are source[offset+i] where that index (computed without wrap-around in 256 bits)
+// lies inside the source, and zero otherwise -- in particular for every offset >= 2^64.
+func VerifC10_CopyWideOffset() {
+	evm := vfNewEVM(1<<40, nil)
+	offB := symx.Bytes("off", 32)
+	in := symx.Bytes("in", 5)
+	kind := symx.Choice("kind", 3)
+	n := 8
+	var code []byte
+	switch kind {
+	case 0: // CALLDATALOAD
+		n = 32
+		code = vfPush32(code, vfWord(offB))
+		code = append(code, byte(CALLDATALOAD), byte(PUSH1), 0, byte(MSTORE))
+	case 1:
+		code = append(code, byte(PUSH1), 8)
+		code = vfPush32(code, vfWord(offB))
+		code = append(code, byte(PUSH1), 0, byte(CALLDATACOPY))
+	case 2:
+		code = append(code, byte(PUSH1), 8)
+		code = vfPush32(code, vfWord(offB))
+		code = append(code, byte(PUSH1), 0, byte(CODECOPY))
+	}
+	code = append(code, byte(PUSH1), 32, byte(PUSH1), 0, byte(RETURN))
+	src := in
+	if kind == 2 {
+		src = code
+	}
+	ret, _, err := vfRun(evm, code, in, 1<<30)
+	symx.Check(err == nil && len(ret) == 32, "program runs and returns one word")
+	if err != nil || len(ret) != 32 {
+		return
+	}
+	high := false
+	for i := 0; i < 24; i++ {
+		high = symx.Or(high, offB[i] != 0)
+	}
+	o := uint64(0)
+	for i := 24; i < 32; i++ {
+		o = o<<8 | uint64(offB[i])
+	}
+	ok := true
+	for i := 0; i < 32; i++ {
+		w := uint64(0)
+		if i < n {
+			for j := 0; j < len(src); j++ {
+				if j < i {
+					continue
+				}
+				c := symx.And(symx.Not(high), o == uint64(j-i))
+				w = symx.IteU64(c, uint64(src[j]), w)
+			}
+		}
+		ok = symx.And(ok, uint64(ret[i]) == w)
+	}
+	symx.Check(ok, "bytes delivered are the zero padded source at the 256-bit offset")
+	symx.Reach("end")
+}
